@@ -16,7 +16,11 @@ LOOKALIKE = {"title": "budget_x2024_final %41 \\u0042", "creator": "svc_x0041_ru
              "keywords": "k_x0020_1;\\n;=?utf-8?q?x?=", "description": "d_x0044_ &amp;amp; \\x41 $HOME"}
 # a third set: characters at the two ends that normalisers like to strip (timestamp designators, punctuation, zeros, case)
 EDGES = {"title": "Zebra to Gen Z", "creator": "z. JAY-Z", "subject": "007 A-Z 00", "keywords": ",k1;k2,;", "description": "--Describe QUIZ.--"}
-VALUE_SETS = [VALUES, LOOKALIKE, EDGES]
+# a fourth set: white space of several kinds at both ends of EVERY property (a reader that trims, or returns the text through a
+# trimming helper, changes the stored value)
+BLANKS = {"title": "  Title in blanks \t", "creator": " \tCreator in blanks  ", "subject": "\nSubject in blanks\n", "keywords": " k1, k2 ",
+          "description": "\u00a0Description in blanks\u00a0 "}
+VALUE_SETS = [VALUES, LOOKALIKE, EDGES, BLANKS]
 
 
 def directed_values(strings):
